@@ -166,14 +166,17 @@ def check_lattice(ctx, spec):
         ctx.count("regularity-checked")
         if not np.all(deg == lat.coord_num):
             ctx.fail(f"adjacency-degree:{tag}", spec, f"degrees {sorted(set(deg.tolist()))} != coord_num {lat.coord_num}")
-        # adjacency must be exactly the neighbour relation
-        for s in site_set:
-            i = int(lat.get_site_num(s))
-            want = sorted(int(lat.get_site_num(x)) for x in set(nbrs(s)))
-            got = sorted(np.nonzero(h[i])[0].tolist())
-            if want != got:
-                ctx.fail(f"adjacency-vs-neighbours:{tag}", spec, f"row {i}: adjacency {got} vs neighbours {want}")
-                break
+    # adjacency must be exactly the (symmetrised) neighbour relation of this very lattice, whatever was built before
+    want_h = np.zeros((n, n), dtype=int)
+    for s in site_set:
+        i = int(lat.get_site_num(s))
+        for x in nbrs(s):
+            if x in site_set:
+                j = int(lat.get_site_num(x))
+                want_h[i, j] = want_h[j, i] = 1
+    if not np.array_equal(want_h, h):
+        bad = np.argwhere(want_h != h)
+        ctx.fail(f"adjacency-vs-neighbours:{tag}", spec, f"adjacency differs from the neighbour relation in {len(bad)} entries, first {bad[0].tolist()}")
     if is_open and rows_even:
         ctx.count("open-degree-checked")
         if np.any(deg > lat.coord_num):
@@ -268,7 +271,63 @@ def attr_body(ctx, spec):
     _roundtrip(ctx, spec, lat, _adjacency(lat, spec), tag)
 
 
+@st.composite
+def sequence_strategy(draw, tier="quick"):
+    """A short history: several lattices (often siblings differing in one attribute) built and queried in a drawn order."""
+    kind = draw(st.sampled_from(["tri", "tri", "grid2d", "chain", "grid3d"]))
+    n = draw(st.integers(2, 4))
+    out = []
+    base = [draw(st.integers(2, 5)) for _ in range({"chain": 1, "grid2d": 2, "tri": 2, "grid3d": 3}[kind])]
+    if kind == "grid3d":
+        base = [min(b, 3) for b in base]
+    for _ in range(n):
+        args = list(base) if draw(st.integers(0, 2)) else [draw(st.integers(2, 5 if kind != "grid3d" else 3)) for _ in base]
+        if kind in ("grid2d", "tri") and draw(st.integers(0, 3)) == 0:
+            args = args[::-1]
+        kw = {}
+        if kind == "tri":
+            kw["open_x"] = draw(st.booleans())
+        elif kind == "chain" and draw(st.booleans()):
+            kw["hop_signs"] = [draw(st.sampled_from([1.0, -1.0])), draw(st.sampled_from([1.0, -1.0]))]
+        elif kind == "grid2d" and draw(st.integers(0, 3)) == 0:
+            kw["hop_signs"] = [draw(st.sampled_from([1.0, -1.0])) for _ in range(4)]
+        out.append({"kind": kind, "args": args, "kw": kw})
+    return {"sequence": out}
+
+
+def sequence_body(ctx, case):
+    seq = case["sequence"]
+    distinct = len({json_key(s) for s in seq})
+    ctx.case(case, nontrivial=distinct >= 2, classes=[f"sequence:{seq[0]['kind']}", "sequence:siblings" if any(a["args"] == b["args"] and a["kw"] != b["kw"] for a in seq for b in seq) else "sequence:unrelated"])
+    for spec in seq:
+        # every instance, at its position in the history, must satisfy the single-lattice clauses
+        check_lattice(_Quiet(ctx), spec)
+
+
+def json_key(spec):
+    import json
+
+    return json.dumps(spec, sort_keys=True)
+
+
+class _Quiet:
+    """Forward failures (with the whole history as the case) but do not count the inner lattices as separate cases."""
+
+    def __init__(self, ctx):
+        self._c = ctx
+
+    def case(self, *a, **k):
+        pass
+
+    def count(self, *a, **k):
+        pass
+
+    def fail(self, bucket, case, message):
+        self._c.fail("sequence:" + bucket, case, message)
+
+
 SUBCHECKS = [
     SubCheck("enumerate_lattices", body=check_lattice, enum=enum_all, shards={"quick": 4, "thorough": 16}),
+    SubCheck("instance_sequences", body=sequence_body, strategy=sequence_strategy, examples={"quick": 60, "thorough": 600}, shards={"quick": 2, "thorough": 4}),
     SubCheck("attribute_roundtrip", body=attr_body, strategy=attr_strategy, examples={"quick": 150, "thorough": 1500}, shards={"quick": 1, "thorough": 4}),
 ]
